@@ -129,6 +129,11 @@ def project(fig, path, names, all_axes=False):
     P["format"] = file_format(path)
     P["pixels"] = png_size(path)
     P["dpi"] = getattr(fig, "_verif_saved_dpi", None)
+    # cropped to the tight bounding box, or the whole figure (figsize x dpi pixels, where explicit margins mean what they say)
+    dpi = P["dpi"] or fig.dpi
+    w, h = fig.get_size_inches()
+    px = P["pixels"]
+    P["crop"] = None if px is None else ("full" if abs(px[0] - w * dpi) <= 1 and abs(px[1] - h * dpi) <= 1 else "tight")
     return P
 
 
@@ -139,7 +144,7 @@ def owned_ok(prop, expected, P, P0):
     """does the projected figure P carry the value the option must give to `prop`? returns None or a message"""
     got = P.get(prop)
     try:
-        if prop in ("title", "xlabel", "ylabel", "xscale", "yscale", "perfectline", "annotations", "margins", "grid"):
+        if prop in ("title", "xlabel", "ylabel", "xscale", "yscale", "perfectline", "annotations", "margins", "grid", "crop"):
             return None if got == expected else "%s: expected %r, figure has %r" % (prop, expected, got)
         if prop in ("xlim", "ylim"):
             e = tuple(_nums(expected))
